@@ -52,9 +52,11 @@ def object_update_body(handle: int, entries: Sequence[Tuple[int, int, int]], sal
     from hippolyzer.lib.base.message.message import Block, Message
     from hippolyzer.lib.base.templates import PCode
     blocks = []
-    for local, full, parent in entries:
+    for entry in entries:
+        local, full, parent = entry[:3]
+        pcode = PCode.AVATAR if len(entry) > 3 and entry[3] == "av" else PCode.PRIMITIVE
         b = Block(
-            "ObjectData", ID=local, FullID=full_id(full), PCode=PCode.PRIMITIVE, Scale=Vector3(0.5, 0.5, 0.5),
+            "ObjectData", ID=local, FullID=full_id(full), PCode=pcode, Scale=Vector3(0.5, 0.5, 0.5),
             UpdateFlags=268568894, PathCurve=16, ParentID=parent, ProfileCurve=1, PathScaleX=100, PathScaleY=100,
             NameValue=None, TextureEntry=TE, TextColor=b'\x00\x00\x00\x00', ExtraParams=b'\x00', CRC=1000 + salt,
             Material=salt & 0x7, fill_missing=True)
@@ -81,9 +83,12 @@ def object_update_compressed_body(handle: int, entries: Sequence[Tuple[int, int,
     from hippolyzer.lib.base.datatypes import Vector3
     from hippolyzer.lib.base.message.message import Block, Message
     from hippolyzer.lib.base.templates import CompressedFlags
+    from hippolyzer.lib.base.templates import PCode
     blocks = []
-    for local, full, parent in entries:
+    for entry in entries:
+        local, full, parent = entry[:3]
         d = _compressed_template()
+        d["PCode"] = PCode.AVATAR if len(entry) > 3 and entry[3] == "av" else PCode.PRIMITIVE
         d["FullID"] = full_id(full)
         d["ID"] = local
         d["CRC"] = 1000 + salt
